@@ -61,7 +61,7 @@ def lex(text, name="a.c"):
     return out
 
 
-def pipeline(text, name="a.c", debug=0, R=None, timeout=10, sorted_errors=True):
+def pipeline(text, name="a.c", debug=0, R=None, timeout=10, sorted_errors=True, restore_limit=True):
     """Lexer + Context + Registry.run on one in-memory file, as main() does it"""
     from norminette.file import File
     from norminette.lexer import Lexer
@@ -91,7 +91,8 @@ def pipeline(text, name="a.c", debug=0, R=None, timeout=10, sorted_errors=True):
         out["exc_site"] = f"{os.path.basename(fr.filename)}:{fr.name}"
         out["exc_line"] = fr.line
     out["reclimit_after"] = sys.getrecursionlimit()
-    sys.setrecursionlimit(rl)
+    if restore_limit:
+        sys.setrecursionlimit(rl)
     out["stdout"] = buf.getvalue()[-2000:]
     try:
         errs = list(f.errors) if sorted_errors else list(f.errors._inner)
